@@ -47,6 +47,40 @@ CHECKS = {
         "per batch position with exact Fraction determinant/adjugate/rank or an independent numpy reference. Held = held on the judged executions.",
         "LAPACK behaviour on singular inputs not judged; tolerance 1e-10 relative to the Hadamard/Frobenius scale",
     ),
+    "C03": (
+        "twin execution monitor on every public geometric operation (rescaled representative re-executed and compared) + contract on ==",
+        "Every top-level call of a geometric operation is re-executed with each tensor argument replaced by a rescaled representative (per element / "
+        "per vertex factors, negative and complex ones) and the results compared with type-driven comparators; == is judged against exact multiples / "
+        "clearly different lattice objects. Workload: operation catalogue over 2D/3D pools and the repo tests. Held = held on the judged executions.",
+        "moderate |lambda|; rays, coincident operands, arbitrary-representative accessors and tensor-level arithmetic are outside the claimed domain (DESIGN.md)",
+    ),
+    "C04": (
+        "shadow execution monitor: collection calls re-executed on single elements rebuilt from array slices; element-class contract on indexing/iteration",
+        "Every top-level call with a collection operand is repeated on up to 12 single-element tuples and compared with the slice of the collection "
+        "result; integer indexing and iteration of every collection class are checked for class, values and attributes. Open findings F4, F26, F27, F28 recorded.",
+        "collections of different shapes and argument types outside the declared signatures are not in the claimed domain",
+    ),
+    "C06": (
+        "runtime contract on TransformationTensor.apply/inverse/__pow__ against an exact action model; recorded word histories checked offline",
+        "Every apply (any depth, also in the repo tests) is compared element-wise with the reference action (exact rational inverse for integer matrices), "
+        "including class/pdim and cached supporting line/plane of polytopes; random words over {s,t,s^-1,t^-1} are applied step by step and compared with "
+        "the reference product. Held = held on the judged executions.",
+        "tolerance scales with the condition number; transformation collections applied to polytopes are outside the domain",
+    ),
+    "C07": (
+        "twin execution with a transformation: op(x) vs op(t x) recorded and compared; contract on _matrix_transform",
+        "For random invertible (non-isometric) integer matrices, rotations and translations the commutation of join/meet with t, the preservation of "
+        "contains/is_tangent/quadric membership/coplanarity answers and of cross ratios, and vertex-wise polytope images are judged on incident and "
+        "non-incident lattice configurations in 2D and 3D.",
+        "exact reference for integer matrices; float matrices with condition-scaled tolerance",
+    ),
+    "C12": (
+        "operand-purity contract (state digests before/after) on every public callable + write-protection buffer sanitizer + re-query history checker",
+        "Every public callable (depth <= 1, also under the repo tests) is wrapped with a contract comparing digests of its tensor operands; pools are run "
+        "through the brute-force catalogue three times: digests of all pool objects, module constants and epsilon/delta caches per call (soft), "
+        "re-asking every query after all other calls (history), and with every reachable buffer write-protected (hard).",
+        "__setitem__/attribute assignment are documented mutators; catalogue arity <= 2 (functions <= 4 sampled)",
+    ),
 }
 
 NOT_APPLICABLE = []
